@@ -92,11 +92,12 @@ def run(ctx: Ctx):
     du = repo.func(VS, "VehicleStateABC.default_update")
     ai = repo.func(SSO, "apply_instructions")
     n1 = rules.rule_adopt_on_success(ctx, du, "transition_previous_to_next", "D5")
-    n2 = rules.rule_adopt_on_success(ctx, ai, "transition_previous_to_next", "D5")
+    fam = [ai] + [f for f in repo.module(SSO).funcs.values() if f.qualname.startswith("apply_instructions.")]
+    n2 = sum(rules.rule_adopt_on_success(ctx, f, "transition_previous_to_next", "D5") for f in fam)
     ctx.require(n1 >= 1 and n2 >= 1, "default_update / apply_instructions no longer adopt transition_previous_to_next's state")
     # who calls transition_previous_to_next
     rules.rule_callers(ctx, "D5", "transition_previous_to_next",
-                       lambda s: "default_update / apply_instructions" if s.func in (du, ai) else None,
+                       lambda s: "default_update / apply_instructions" if (s.func in (du, ai) or (s.func is not None and s.func.qualname.startswith("apply_instructions."))) else None,
                        "transitions are performed only by default_update and apply_instructions", 2)
     step_vehicle_rule(ctx)
     bounds(ctx)
